@@ -12,7 +12,12 @@ import (
 	"github.com/Flowpack/prunner/verifhook"
 )
 
-var json = jsoniter.ConfigFastest
+// json is jsoniter.ConfigFastest without MarshalFloatWith6Digits: numbers in job variables must be stored as they are
+// (with 6 digits 1e-9 is stored as 0 and 0.30000000000000004 as 0.3)
+var json = jsoniter.Config{
+	EscapeHTML:                    false,
+	ObjectFieldMustBeSimpleString: true,
+}.Froze()
 
 type PersistedJob struct {
 	ID       uuid.UUID
